@@ -61,14 +61,14 @@ type History struct {
 }
 
 type Divergence struct {
-	ID      string   `json:"id"`
-	Step    int      `json:"step"`
-	Kind    string   `json:"kind"`
-	Op      any      `json:"op"`
-	Detail  string   `json:"detail"`
-	Diff    []string `json:"diff,omitempty"`
-	Explain []string `json:"explain"` // known deviations of the code that reproduce the observed outcome ([] = none does)
-	Request string   `json:"request,omitempty"`
+	ID      string     `json:"id"`
+	Step    int        `json:"step"`
+	Kind    string     `json:"kind"`
+	Op      any        `json:"op"`
+	Detail  string     `json:"detail"`
+	Diff    []string   `json:"diff,omitempty"`
+	Explain [][]string `json:"explain"` // minimal sets of known deviations of the code that reproduce the observed outcome ([] = none does)
+	Request string     `json:"request,omitempty"`
 }
 
 func has(xs []string, x string) bool {
@@ -217,11 +217,7 @@ func replayHistory(p Profile, h *History, res *output, verbose bool) {
 		res.Errors = append(res.Errors, fmt.Sprintf("%s: setup: %v", h.ID, err))
 		return
 	}
-	defer func() {
-		tc := time.Now()
-		w.Close()
-		res.CloseMs += time.Since(tc).Milliseconds()
-	}()
+	defer func() { w.Close() }()
 	res.Histories++
 	rng := rand.New(rand.NewSource(int64(p.Variant)*1000003 + int64(hashString(h.ID))))
 	for i := range h.Ops {
@@ -230,9 +226,9 @@ func replayHistory(p Profile, h *History, res *output, verbose bool) {
 		res.Steps++
 		pre := w.observeCache()
 		var divs []Divergence
-		add := func(kind, detail string, diff []string, explain []string, request string) {
+		add := func(kind, detail string, diff []string, explain [][]string, request string) {
 			if explain == nil {
-				explain = []string{}
+				explain = [][]string{}
 			}
 			divs = append(divs, Divergence{ID: h.ID, Step: i, Kind: kind, Op: op, Detail: detail, Diff: diff, Explain: explain, Request: request})
 		}
@@ -286,8 +282,15 @@ func replayHistory(p Profile, h *History, res *output, verbose bool) {
 			} else {
 				divs[len(divs)-1].Diff = append(divs[len(divs)-1].Diff, d...)
 			}
-			// re-establish the required contents so that the remaining steps are judged on their own
-			w.wipeCache()
+			// re-establish the required contents so that the remaining steps are judged on their own:
+			// a new world (engine, indexes, gateway) with the required entries planted
+			w.flushNotes(h.ID, res)
+			w.Close()
+			w, err = newWorld(p, h.Cfg)
+			if err != nil {
+				res.Errors = append(res.Errors, fmt.Sprintf("%s step %d: resync: %v", h.ID, i, err))
+				return
+			}
 			for _, e := range op.Cache {
 				if err := w.plantEntry("resync", e.Born, e.Pos, e.Src, e.Fresh); err != nil {
 					res.Errors = append(res.Errors, fmt.Sprintf("%s step %d: resync: %v", h.ID, i, err))
@@ -324,7 +327,7 @@ func hashString(s string) uint32 {
 	return h
 }
 
-type addFn func(kind, detail string, diff []string, explain []string, request string)
+type addFn func(kind, detail string, diff []string, explain [][]string, request string)
 
 func (w *World) replayReq(rng *rand.Rand, op *Op, step int, pre []RealEntry, res *output, add addFn, verbose bool) (abandon bool) {
 	c := concretize(rng, op)
@@ -337,6 +340,7 @@ func (w *World) replayReq(rng *rand.Rand, op *Op, step int, pre []RealEntry, res
 			near = append(near, e.ID)
 		}
 	}
+	lost := w.lostEntries(op.Pos, pre)
 	nEmb := len(w.emb.texts)
 	o := w.send(c)
 	res.Outcomes[o.Outcome]++
@@ -352,6 +356,9 @@ func (w *World) replayReq(rng *rand.Rand, op *Op, step int, pre []RealEntry, res
 	reqDesc := fmt.Sprintf("POST %s %s", c.Path, c.Body)
 	facts := fmt.Sprintf("metric=%s fw=%v cache=%v forb=%v pos=%s pat=%v mark=%v stream=%v dFw=%s dCache=%s shape=%s | required %v, observed %s (status %d, upstream +%d, X-Kektor-Cache=%q)",
 		w.P.Metric, w.Cfg.Fw, w.Cfg.Cache, w.Cfg.Forb, op.Pos, op.Pat, op.Mark, op.Stream, op.DFw, op.DCache, c.Shape, op.Accept, o.Outcome, o.Status, o.Du, o.Header)
+	if len(lost) > 0 {
+		facts += fmt.Sprintf(" | the engine's search over the cache index omits %d of its %d live entries", len(lost), len(pre))
+	}
 	res.Checks++
 	ok := has(op.Accept, o.Outcome)
 	if !ok {
@@ -369,12 +376,12 @@ func (w *World) replayReq(rng *rand.Rand, op *Op, step int, pre []RealEntry, res
 		if o.Status >= 400 && o.Du > 0 {
 			kind = "refused_but_reached_upstream"
 		}
-		add(kind, facts, nil, w.explainReq(op, pre, o.Outcome), reqDesc)
+		add(kind, facts, nil, w.explainReq(op, pre, lost, o.Outcome), reqDesc)
 	} else if o.Outcome == "hit" {
 		// served from the cache: the body must be the stored answer of a fresh entry within the cache distance
 		res.Checks++
 		if !hasInt(op.Servable, o.HitBorn) {
-			add("hit_wrong_entry", facts+fmt.Sprintf(" | served the answer stored at step %d (%s), servable: %v", o.HitBorn, o.HitTag, op.Servable), nil, w.explainReq(op, pre, o.Outcome), reqDesc)
+			add("hit_wrong_entry", facts+fmt.Sprintf(" | served the answer stored at step %d (%s), servable: %v", o.HitBorn, o.HitTag, op.Servable), nil, w.explainReq(op, pre, lost, o.Outcome), reqDesc)
 		}
 	}
 	if op.Term {
@@ -471,17 +478,17 @@ func (w *World) replayInval(op *Op, pre []RealEntry, add addFn) {
 	}
 	facts := fmt.Sprintf("metric=%s cache_index=%s (text language %q) id_style=%s document_id=%q status=%d body=%s", w.P.Metric, w.P.CacheIndex, w.cacheLanguage(), w.P.IDStyle, id, rec.Code, strings.TrimSpace(rec.Body.String()))
 	if len(under) > 0 {
-		var ex []string
+		var ex [][]string
 		// the cache index has no text analyser, so the text search behind the invalidation finds nothing at all
 		if lang := w.cacheLanguage(); lang != "english" && lang != "italian" && removedAll && len(over) == 0 {
-			ex = []string{"inval_needs_text_index"}
+			ex = [][]string{{"inval_needs_text_index"}}
 		}
 		add("inval_under", facts, under, ex, "POST /cache/invalidate "+string(body))
 	}
 	if len(over) > 0 {
-		var ex []string
+		var ex [][]string
 		if overShare {
-			ex = []string{"inval_token_overlap"}
+			ex = [][]string{{"inval_token_overlap"}}
 		}
 		add("inval_over", facts+fmt.Sprintf(" | analyser tokens of the id: %v", qTok), over, ex, "POST /cache/invalidate "+string(body))
 	}
@@ -494,7 +501,8 @@ func (w *World) replayInval(op *Op, pre []RealEntry, add addFn) {
 //	M the task-marker pass-through precedes the firewall
 //	S the engine's score 1/(1+d) is compared with the thresholds as if it were the distance d
 //	N the cache looks at the single nearest entry only
-func (w *World) pipelineOutcomes(op *Op, pre []RealEntry, M, S, N bool) map[string]bool {
+//	E entries the engine's search does not return (although they are live in the index) are invisible
+func (w *World) pipelineOutcomes(op *Op, pre []RealEntry, lost map[string]bool, M, S, N, E bool) map[string]bool {
 	closer := func(d float64, thr float32) bool {
 		if S {
 			return float32(1/(1+d)) < thr
@@ -527,17 +535,23 @@ func (w *World) pipelineOutcomes(op *Op, pre []RealEntry, M, S, N bool) map[stri
 		out["forward"] = true
 		return out
 	}
-	if w.Cfg.Cache && !op.Stream && len(pre) > 0 {
+	var visible []RealEntry
+	for _, e := range pre {
+		if !(E && lost[e.ID]) {
+			visible = append(visible, e)
+		}
+	}
+	if w.Cfg.Cache && !op.Stream && len(visible) > 0 {
 		q := w.cacheVec(op.Pos)
 		if N {
 			best := -1.0
-			for _, e := range pre {
+			for _, e := range visible {
 				d := distOf(w.P.Metric, w.cacheVec(e.Pos), q)
 				if best < 0 || d < best {
 					best = d
 				}
 			}
-			for _, e := range pre { // ties: any of the nearest may be the one the index returns
+			for _, e := range visible { // ties: any of the nearest may be the one the index returns
 				if d := distOf(w.P.Metric, w.cacheVec(e.Pos), q); d <= best+1e-9 {
 					if closer(d, thrCache) && e.Fresh {
 						out["hit"] = true
@@ -548,7 +562,7 @@ func (w *World) pipelineOutcomes(op *Op, pre []RealEntry, M, S, N bool) map[stri
 			}
 			return out
 		}
-		for _, e := range pre {
+		for _, e := range visible {
 			if e.Fresh && closer(distOf(w.P.Metric, w.cacheVec(e.Pos), q), thrCache) {
 				out["hit"] = true
 				return out
@@ -559,24 +573,71 @@ func (w *World) pipelineOutcomes(op *Op, pre []RealEntry, M, S, N bool) map[stri
 	return out
 }
 
-func (w *World) explainReq(op *Op, pre []RealEntry, observed string) []string {
-	type combo struct {
-		M, S, N bool
-		names   []string
-	}
-	combos := []combo{
-		{true, false, false, []string{"marker_first"}},
-		{false, true, false, []string{"score_is_similarity"}},
-		{false, false, true, []string{"nearest_only"}},
-		{true, true, false, []string{"marker_first", "score_is_similarity"}},
-		{true, false, true, []string{"marker_first", "nearest_only"}},
-		{false, true, true, []string{"score_is_similarity", "nearest_only"}},
-		{true, true, true, []string{"marker_first", "score_is_similarity", "nearest_only"}},
-	}
-	for _, c := range combos {
-		if w.pipelineOutcomes(op, pre, c.M, c.S, c.N)[observed] {
-			return c.names
+var deviationNames = []string{"marker_first", "score_is_similarity", "nearest_only", "engine_search_misses_live_entries"}
+
+// explainReq returns the minimal sets of deviations under which the pipeline produces the observed outcome
+func (w *World) explainReq(op *Op, pre []RealEntry, lost map[string]bool, observed string) [][]string {
+	var found [][]int
+	res := [][]string{}
+	for size := 1; size <= 4; size++ {
+		for mask := 1; mask < 16; mask++ {
+			var bits []int
+			for b := 0; b < 4; b++ {
+				if mask&(1<<b) != 0 {
+					bits = append(bits, b)
+				}
+			}
+			if len(bits) != size {
+				continue
+			}
+			if mask&8 != 0 && len(lost) == 0 {
+				continue
+			}
+			super := false
+			for _, f := range found {
+				fm := 0
+				for _, b := range f {
+					fm |= 1 << b
+				}
+				if mask&fm == fm {
+					super = true
+				}
+			}
+			if super {
+				continue
+			}
+			if w.pipelineOutcomes(op, pre, lost, mask&1 != 0, mask&2 != 0, mask&4 != 0, mask&8 != 0)[observed] {
+				found = append(found, bits)
+				var names []string
+				for _, b := range bits {
+					names = append(names, deviationNames[b])
+				}
+				res = append(res, names)
+			}
 		}
 	}
-	return []string{}
+	return res
+}
+
+// entries that are live in the cache index (listed, readable) but that the engine's own
+// nearest-neighbour search does not return even when asked for more results than there are entries
+func (w *World) lostEntries(pos string, pre []RealEntry) map[string]bool {
+	lost := map[string]bool{}
+	if len(pre) == 0 || !w.cacheExists() {
+		return lost
+	}
+	rs, err := w.E.VSearchWithScores(w.cacheName, w.cacheVec(pos), len(pre)+8)
+	if err != nil {
+		return lost
+	}
+	got := map[string]bool{}
+	for _, r := range rs {
+		got[r.ID] = true
+	}
+	for _, e := range pre {
+		if !got[e.ID] {
+			lost[e.ID] = true
+		}
+	}
+	return lost
 }
